@@ -61,6 +61,41 @@ func funcIdent(pkgPath string, fd *ast.FuncDecl) string {
 	return pkgPath + " " + recv + " " + fd.Name.Name
 }
 
+// funcSig renders the parameter and result types of a declaration (names dropped).
+func funcSig(fd *ast.FuncDecl) string {
+	list := func(fl *ast.FieldList) string {
+		if fl == nil {
+			return ""
+		}
+		var ts []string
+		for _, f := range fl.List {
+			t := types.ExprString(f.Type)
+			n := len(f.Names)
+			if n == 0 {
+				n = 1
+			}
+			for i := 0; i < n; i++ {
+				ts = append(ts, t)
+			}
+		}
+		return strings.Join(ts, ",")
+	}
+	ptr := ""
+	if fd.Recv != nil && len(fd.Recv.List) > 0 {
+		if _, ok := fd.Recv.List[0].Type.(*ast.StarExpr); ok {
+			ptr = "*"
+		}
+	}
+	return strings.ReplaceAll(ptr+"("+list(fd.Type.Params)+")->("+list(fd.Type.Results)+")", " ", "")
+}
+
+// baselineSigs: ident -> signature of the recorded functions (filled by loadBaseline).
+var baselineSigs = map[string]string{}
+
+// renamedFuncs: "pkgpath recv newname" -> old name, for functions of the current tree that are a
+// recorded function under a new name (same package, receiver and signature; one-to-one).
+var renamedFuncs = map[string]string{}
+
 func loadBaseline(verif string) (map[string]bool, error) {
 	f, err := os.Open(filepath.Join(verif, "checker", "baseline_funcs.txt"))
 	if err != nil {
@@ -72,7 +107,13 @@ func loadBaseline(verif string) (map[string]bool, error) {
 	for sc.Scan() {
 		ln := strings.TrimSpace(sc.Text())
 		if ln != "" && !strings.HasPrefix(ln, "#") {
-			out[ln] = true
+			// "pkgpath recv name\tsignature"
+			id, sig := ln, ""
+			if i := strings.Index(ln, "\t"); i >= 0 {
+				id, sig = ln[:i], ln[i+1:]
+			}
+			out[id] = true
+			baselineSigs[id] = sig
 		}
 	}
 	return out, sc.Err()
@@ -94,13 +135,16 @@ func writeBaseline(dir, tags, out string) error {
 		for _, f := range p.Syntax {
 			for _, d := range f.Decls {
 				if fd, ok := d.(*ast.FuncDecl); ok {
-					lines = append(lines, funcIdent(p.PkgPath, fd))
+					lines = append(lines, funcIdent(p.PkgPath, fd)+"\t"+funcSig(fd))
 				}
 			}
 		}
 	}
 	sort.Strings(lines)
-	hdr := "# functions declared in the tree the rules were confirmed on (pkgpath recv name); calls to module\n# functions NOT listed here are expanded in place before analysis (see inline.go)\n"
+	if err := writeFieldBaseline(dir, tags, filepath.Join(filepath.Dir(out), "baseline_fields.txt")); err != nil {
+		return err
+	}
+	hdr := "# functions declared in the tree the rules were confirmed on (pkgpath recv name <tab> signature); calls to\n# module functions NOT listed here are expanded in place before analysis, a recorded function that only\n# changed its name is recognised by package+receiver+signature (see inline.go)\n"
 	return os.WriteFile(out, []byte(hdr+strings.Join(lines, "\n")+"\n"), 0o644)
 }
 
@@ -120,20 +164,49 @@ func normaliseHelpers(dir, tags string, env []string, baseline map[string]bool) 
 		return nil, nil, err
 	}
 	anyNew := false
+	present := map[string]bool{}
+	type cand struct{ id, name string }
+	fresh := map[string][]cand{} // "pkgpath recv sig" -> new functions
 	for _, p := range pp {
 		if !strings.HasPrefix(p.PkgPath, modulePath) {
 			continue
 		}
 		for _, f := range p.Syntax {
 			for _, d := range f.Decls {
-				if fd, ok := d.(*ast.FuncDecl); ok && fd.Body != nil && !baseline[funcIdent(p.PkgPath, fd)] {
-					anyNew = true
+				if fd, ok := d.(*ast.FuncDecl); ok {
+					id := funcIdent(p.PkgPath, fd)
+					present[id] = true
+					if fd.Body != nil && !baseline[id] {
+						cls := id[:strings.LastIndex(id, " ")] + " " + funcSig(fd)
+						fresh[cls] = append(fresh[cls], cand{id, fd.Name.Name})
+					}
 				}
 			}
 		}
 	}
+	// recorded functions that disappeared, by class
+	gone := map[string][]string{}
+	for id := range baseline {
+		if !present[id] && strings.HasPrefix(id, modulePath) {
+			cls := id[:strings.LastIndex(id, " ")] + " " + baselineSigs[id]
+			gone[cls] = append(gone[cls], id)
+		}
+	}
+	for k := range renamedFuncs {
+		delete(renamedFuncs, k)
+	}
+	for cls, fs := range fresh {
+		if gs := gone[cls]; len(fs) == 1 && len(gs) == 1 {
+			old := gs[0][strings.LastIndex(gs[0], " ")+1:]
+			renamedFuncs[fs[0].id] = old
+			notes = append(notes, fmt.Sprintf("%s is the recorded function %s under a new name", fs[0].id, old))
+			baseline[fs[0].id] = true // not a new helper: it is not expanded
+			continue
+		}
+		anyNew = true
+	}
 	if !anyNew {
-		return nil, nil, nil
+		return nil, notes, nil
 	}
 	for round := 1; round <= 6; round++ {
 		cfg := &packages.Config{Mode: packages.LoadAllSyntax, Dir: dir, Env: append(os.Environ(), env...), Overlay: overlay}
@@ -1020,4 +1093,67 @@ func (in *inliner) rewriteBody(cf *ast.File, fd *ast.FuncDecl, rnames, named []s
 	}
 	out.Write(src[cur:end])
 	return out.String()
+}
+
+// writeFieldBaseline records the fields of the module's struct types: "rel Type field <tab> type".
+func writeFieldBaseline(dir, tags, out string) error {
+	cfg := &packages.Config{Mode: packages.LoadAllSyntax, Dir: dir,
+		Env: append(os.Environ(), "GOFLAGS=-mod=mod", "GOPROXY=off", "GOSUMDB=off", "GOTOOLCHAIN=local", "GOWORK=off")}
+	if tags != "" {
+		cfg.BuildFlags = []string{"-tags=" + tags}
+	}
+	pkgs, err := packages.Load(cfg, "./...")
+	if err != nil {
+		return err
+	}
+	var lines []string
+	for _, p := range pkgs {
+		if p.Types == nil || !inModule(p.Types) {
+			continue
+		}
+		sc := p.Types.Scope()
+		for _, n := range sc.Names() {
+			tn, ok := sc.Lookup(n).(*types.TypeName)
+			if !ok {
+				continue
+			}
+			st, ok := tn.Type().Underlying().(*types.Struct)
+			if !ok {
+				continue
+			}
+			for i := 0; i < st.NumFields(); i++ {
+				f := st.Field(i)
+				lines = append(lines, fmt.Sprintf("%s %s %s\t%s", relPkg(p.PkgPath), n, f.Name(), types.TypeString(f.Type(), nil)))
+			}
+		}
+	}
+	sort.Strings(lines)
+	hdr := "# fields of the module's struct types in the tree the rules were confirmed on (rel type field <tab> type);\n# a field the rules look for that is gone is matched to the one new field of the same type in that struct\n"
+	return os.WriteFile(out, []byte(hdr+strings.Join(lines, "\n")+"\n"), 0o644)
+}
+
+// baselineFields: "rel Type field" -> type string (loaded on first use).
+var baselineFields map[string]string
+
+func loadFieldBaseline() map[string]string {
+	if baselineFields != nil {
+		return baselineFields
+	}
+	baselineFields = map[string]string{}
+	if verifDirGlobal == "" {
+		return baselineFields
+	}
+	b, err := os.ReadFile(filepath.Join(verifDirGlobal, "checker", "baseline_fields.txt"))
+	if err != nil {
+		return baselineFields
+	}
+	for _, ln := range strings.Split(string(b), "\n") {
+		if ln == "" || strings.HasPrefix(ln, "#") {
+			continue
+		}
+		if i := strings.Index(ln, "\t"); i >= 0 {
+			baselineFields[ln[:i]] = ln[i+1:]
+		}
+	}
+	return baselineFields
 }
